@@ -54,7 +54,10 @@ Record HInv (pre : trace) (s : state) : Prop := mkHInv {
   h_by : forall t x a, nget (tgts s) t = Some x -> t_by x = Some a -> has_by pre a (KProbeApply t true TAdding THealthy);
   h_sig : forall t x, nget (tgts s) t = Some x -> t_sig x = true -> probe_then_rotation pre t (t_lb x);
   h_waited : forall lb b v, nget (bals s) lb = Some b -> b_waited b = Some v -> has pre (KDeployWaited lb v);
-  h_wtr : forall t x v, nget (tgts s) t = Some x -> t_waiter x = Some v -> has pre (KWaiter t v)
+  h_wtr : forall t x v, nget (tgts s) t = Some x -> t_waiter x = Some v -> has pre (KWaiter t v);
+  h_restored : forall lb b, nget (bals s) lb = Some b -> b_restored b = true ->
+               exists sv act roll, has pre (KRestored sv act roll) /\ (act = Some lb \/ roll = Some lb);
+  h_presumed : forall t x, nget (tgts s) t = Some x -> t_presumed x = true -> has pre (KStateSet t TAdding THealthy)
 }.
 
 Lemma hinv_init : HInv [] init.
@@ -132,6 +135,7 @@ Proof.
   all: norm; try (eapply Hold; eauto; fail).
   all: try (split_ands; discriminate).
   all: inj_some; try (apply has_snoc_new; reflexivity).
+  unmark. rewrite Hs_w in Hw. eapply Hold; eauto.
 Qed.
 
 Lemma hpres_wtr : forall pre s e s', HInv pre s -> step s e = Some s' ->
@@ -148,6 +152,43 @@ Proof.
   all: try (destruct ok; proj_simp; eapply Hold; eauto; fail).
 Qed.
 
+Lemma in_restored_lbs : forall lb n roll, In lb (n :: opt_list roll) -> Some n = Some lb \/ roll = Some lb.
+Proof.
+  intros lb n roll [->|H]; [left; reflexivity|]. destruct roll as [l|]; cbn in H; [|contradiction].
+  destruct H as [->|[]]. right. reflexivity.
+Qed.
+
+Lemma hpres_restored : forall pre s e s', HInv pre s -> step s e = Some s' ->
+  forall lb b, nget (bals s') lb = Some b -> b_restored b = true ->
+  exists sv act roll, has (pre ++ [e]) (KRestored sv act roll) /\ (act = Some lb \/ roll = Some lb).
+Proof.
+  intros pre s e s' HH H lb b Hb Hr.
+  assert (Hold : forall b, nget (bals s) lb = Some b -> b_restored b = true ->
+            exists sv act roll, has (pre ++ [e]) (KRestored sv act roll) /\ (act = Some lb \/ roll = Some lb)).
+  { intros b0 H0 H1. destruct (h_restored _ _ HH _ _ H0 H1) as [sv [act [roll [Hh Ho]]]].
+    exists sv, act, roll. split; auto. now apply has_snoc_old. }
+  destruct e as [tm a k]. destruct k; step_inv H; proj_simp; try (eapply Hold; eauto; fail).
+  all: norm; try (eapply Hold; eauto; fail).
+  all: try discriminate.
+  unmark. destruct (Hrest Hr) as [Hr0|Hin]; [eapply Hold; eauto|].
+  do 3 eexists. split; [apply has_snoc_new; reflexivity|]. now apply in_restored_lbs.
+Qed.
+
+Lemma hpres_presumed : forall pre s e s', HInv pre s -> step s e = Some s' ->
+  forall t x, nget (tgts s') t = Some x -> t_presumed x = true -> has (pre ++ [e]) (KStateSet t TAdding THealthy).
+Proof.
+  intros pre s e s' HH H t x Hx Hp.
+  assert (Hold : forall x, nget (tgts s) t = Some x -> t_presumed x = true -> has (pre ++ [e]) (KStateSet t TAdding THealthy)).
+  { intros x0 H0 H1. apply has_snoc_old. eapply (h_presumed _ _ HH); eauto. }
+  destruct e as [tm a k]. destruct k; step_inv H; proj_simp; try (eapply Hold; eauto; fail).
+  all: norm; try (eapply Hold; eauto; fail).
+  all: try (split_ands; discriminate).
+  all: try (apply add_targets_inv in Hx; destruct Hx as [[_ ->]|[_ Hx]]; [discriminate|eapply Hold; eauto]; fail).
+  all: try (destruct ok; proj_simp; eapply Hold; eauto; fail).
+  all: try (clear Heqb; split_ands; repeat match goal with H : tstate_eqb _ _ = true |- _ => apply tstate_eqb_eq in H end; subst;
+            apply has_snoc_new; reflexivity).
+Qed.
+
 Theorem hinv_step : forall pre s e s', Inv s -> HInv pre s -> step s e = Some s' -> HInv (pre ++ [e]) s'.
 Proof.
   intros pre s e s' HI HH H. constructor.
@@ -156,6 +197,8 @@ Proof.
   - eapply hpres_sig; eauto.
   - eapply hpres_waited; eauto.
   - eapply hpres_wtr; eauto.
+  - eapply hpres_restored; eauto.
+  - eapply hpres_presumed; eauto.
 Qed.
 
 Theorem hinv_run : forall tr s, run step init tr = Some s -> HInv tr s.
